@@ -230,6 +230,8 @@ class _StoreProxy:
             with rec.lock:
                 rec.events.append({"ev": "sync", "k": k, "v": rec.vkey(individual.vector), "cf": rec.cf_of(individual),
                                    "st": individual.to_string(individual.state)})
+            if getattr(rec, "on_synced", None):
+                rec.on_synced(k)
 
     def sync_all(self):
         if self.real is not None:
@@ -256,7 +258,7 @@ def evaluate_batch(rec, workers=1, rounds=1):
         try:
             alg.evaluate(rec.inds)
         except BaseException as e:      # noqa -- the exception the caller sees is the observation
-            if isinstance(e, (KeyboardInterrupt, SystemExit)):
+            if isinstance(e, (KeyboardInterrupt, SystemExit)) or type(e).__name__ == "MachineryError":
                 raise
             exc = e
             break
